@@ -16,6 +16,8 @@ def history(rng, fractional=True):
              "predicate B() : Impulse { }",
              "predicate C(real y) : Interval { duration >= 0.5; goal b = new B(); b.at >= start; b.at <= end; }",
              "predicate D(bool p) : Interval { duration >= 1.0; }"]
+    if rng.random() < 0.2:
+        lines.append('enum Speed {"High", "Low"};')       # values that no variable names: the solution is serialised with them
     n = rng.randint(1, 5)
     atoms = []      # (name, kind)
     cons = []       # ("ge", (name, point), (name, point), offset):  first >= second + offset
